@@ -221,15 +221,17 @@ def mpCentroidAccOld : MPoly → CAcc → CAcc
   | p :: rest, s => mpCentroidAccOld rest (mpCentroidRingsOld (p.length == 1) (withOthers [] p) s)
 def multiPolygonCentroidOld (mp : MPoly) : FV × FV := (mpCentroidAccOld mp .zero).finish
 
-/-! ## range guard of the centroids (fix 4edcec2)
+/-! ## range guard of the centroids (fix 4edcec2, per axis since the fix "centroids rescale each axis by its own power of two")
 
-`Polygon.Centroid`, `MultiPolygon.Centroid` and `op.Centroid` now begin with
-`if k := centroidScale(p); k != 1 { c := p.scaled(k).Centroid(); return Point{c.X * k, c.Y * k} }`:
-when the largest |coordinate| is outside `[2^-300, 2^300]` the centroid of a copy divided by a power
-of two is calculated by the loops above (`…Core`) and multiplied back. -/
+`Polygon.Centroid`, `MultiPolygon.Centroid` and `op.Centroid` begin with
+`if kx, ky := centroidScale(p); kx != 1 || ky != 1 { c := p.scaled(kx, ky).Centroid(); return Point{c.X * kx, c.Y * ky} }`:
+when the largest |X| (resp. |Y|) is outside `[2^-300, 2^300]` the centroid of a copy whose X (resp. Y)
+coordinates are divided by a power of two is calculated by the loops above (`…Core`) and multiplied back. -/
 
-def maxAbsCoord (rings : Poly) : Rat :=
-  rings.foldl (fun m r => r.foldl (fun m v => max m (max (absR v.x) (absR v.y))) m) 0
+def maxAbsX (rings : Poly) : Rat :=
+  rings.foldl (fun m r => r.foldl (fun m v => max m (absR v.x)) m) 0
+def maxAbsY (rings : Poly) : Rat :=
+  rings.foldl (fun m r => r.foldl (fun m v => max m (absR v.y)) m) 0
 
 def pow2 (i : Int) : Rat := if 0 ≤ i then (2 : Rat) ^ i.toNat else 1 / (2 : Rat) ^ (-i).toNat
 
@@ -238,37 +240,42 @@ def pow2Floor (m : Rat) : Rat :=
   let i : Int := (m.num.toNat.log2 : Int) - (m.den.log2 : Int)
   if pow2 i ≤ m then pow2 i else pow2 (i - 1)
 
-/-- `centroidScale`: `none` stands for the returned 1 (no rescaling) -/
-def centScale (rings : Poly) : Option Rat :=
-  let m := maxAbsCoord rings
-  if pow2 300 ≤ m ∨ (0 < m ∧ m ≤ pow2 (-300)) then some (pow2Floor m) else none
+/-- `centroidAxisScale` -/
+def axisScale (m : Rat) : Rat :=
+  if pow2 300 ≤ m ∨ (0 < m ∧ m ≤ pow2 (-300)) then pow2Floor m else 1
 
-/-- `Polygon.scaled(k)` -/
-def scaleRing (k : Rat) (r : Ring) : Ring := r.map fun v => ⟨v.x / k, v.y / k⟩
-def scalePoly (k : Rat) (p : Poly) : Poly := p.map (scaleRing k)
+/-- `centroidScale` and the test `kx != 1 || ky != 1`: `none` stands for "no rescaling" -/
+def centScale (rings : Poly) : Option (Rat × Rat) :=
+  let kx := axisScale (maxAbsX rings)
+  let ky := axisScale (maxAbsY rings)
+  if kx ≠ 1 ∨ ky ≠ 1 then some (kx, ky) else none
+
+/-- `Polygon.scaled(kx, ky)` -/
+def scaleRing (kx ky : Rat) (r : Ring) : Ring := r.map fun v => ⟨v.x / kx, v.y / ky⟩
+def scalePoly (kx ky : Rat) (p : Poly) : Poly := p.map (scaleRing kx ky)
 
 /-- `c.X * k` for a positive finite `k`: infinities and NaN stay what they are -/
 def FQ.mulPos (k : Rat) : FQ → FQ
   | .fin q => .fin (q * k)
   | x => x
-def unscale (k : Rat) (c : FV × FV) : FV × FV := (c.1.mulPos k, c.2.mulPos k)
+def unscale (kx ky : Rat) (c : FV × FV) : FV × FV := (c.1.mulPos kx, c.2.mulPos ky)
 
 /-- `Polygon.Centroid` -/
 def polygonCentroid (p : Poly) : Except Fault (FV × FV) :=
   match centScale p with
-  | some k => (polygonCentroidCore (scalePoly k p)).map (unscale k)
+  | some (kx, ky) => (polygonCentroidCore (scalePoly kx ky p)).map (unscale kx ky)
   | none => polygonCentroidCore p
 
 /-- `op.Centroid` on a Polygon -/
 def opCentroid (p : Poly) : FV × FV :=
   match centScale p with
-  | some k => unscale k (opCentroidCore (scalePoly k p))
+  | some (kx, ky) => unscale kx ky (opCentroidCore (scalePoly kx ky p))
   | none => opCentroidCore p
 
 /-- `MultiPolygon.Centroid` -/
 def multiPolygonCentroid (mp : MPoly) : FV × FV :=
   match centScale mp.flatten with
-  | some k => unscale k (multiPolygonCentroidCore (mp.map (scalePoly k)))
+  | some (kx, ky) => unscale kx ky (multiPolygonCentroidCore (mp.map (scalePoly kx ky)))
   | none => multiPolygonCentroidCore mp
 
 /-! ## bounds.go (read only) -/
